@@ -2,22 +2,21 @@
 //! producing the next request either yields a packet that fits the 1024-byte send buffer or asks
 //! for a reset; it never crashes (Kani checks every panic, `expect`, index and overflow on the way).
 //!
-//! Encoding a request with many extension fields symbolically is out of reach (measured on
-//! `NtpSource::handle_timer` with NTS: global unwind 8 = 17 s, unwind 10 > 5 min and > 4 GB, because
-//! the encoder dispatches on a symbolic field kind at a symbolic cursor position in every
-//! iteration). The claim is therefore decided in pieces, each a solver query over its whole space:
-//!   * c14_poll_wire_* / c14_poll_edge_*: the REAL `handle_timer` + REAL encoder for every request
-//!     with at most 3 (NTPv4) / 2 (NTPv5) cookie-sized fields: all stash fills when the cookie is
-//!     long (L >= 242: at most 2 fit), stash fill 6..=8 / 7..=8 otherwise;
+//! The whole chain handle_timer -> request builder -> encoder in one solver query does not fit
+//! (measured: `handle_timer` with NTS and the encoder replaced: symex 337 s, 1.9 M steps, > 8 GB; with
+//! the real encoder not even symex finishes: every encoder iteration dispatches on a symbolic field
+//! kind at a symbolic cursor position). The claim is therefore decided at the function boundaries of
+//! the real code, each a solver query over its whole space:
+//!   * c14_poll_timer_*: the REAL `NtpSource::handle_timer`, every cookie length 0..=1024, every stash
+//!     fill, all protocol versions: Send+SetTimer or Reset, never a panic; how many cookie-sized
+//!     fields it asks the builder for; the request asked for fits (sizes from the next items);
+//!   * c13_poll_message_* (C13): the REAL builders: which fields they create;
 //!   * c14_ef_size: the REAL per-field encoder for the cookie-dependent fields, every L <= 1024 and
-//!     every remaining buffer size: writes exactly E(L) bytes or fails cleanly;
-//!   * c14_budget: with the sizes established above, the number of fields `handle_timer` asks for
-//!     (its margin rule, recomputed here from the property text) never exceeds the buffer — for all
-//!     L <= 1024, all stash fills, both wire formats (arithmetic over the harness's own formula,
-//!     tied to the code by the two harness groups above);
-//!   * c14_write_zeros_model: the loop-free model of `write_zeros` used in the poll harnesses equals
-//!     the real loop;
-//!   * c14_poll_plain: sources without NTS, all protocol versions.
+//!     every remaining buffer size: writes exactly E(L) bytes or fails cleanly, never panics;
+//!   * c14_budget: the margin rule against those sizes as pure arithmetic, all L <= 1024, all fills;
+//!   * c14_write_zeros_model: the loop-free model of `write_zeros` (used where the encoder runs in
+//!     the poll harnesses) equals the real loop;
+//!   * c14_poll_plain: sources without NTS, all protocol versions, real builder and encoder.
 use crate::common::*;
 use crate::stubs;
 use ntp_proto::verif::packet::extension_fields as eh;
@@ -38,11 +37,13 @@ fn asked(valid: usize, l: usize) -> usize {
     core::cmp::min(missing, 724 / core::cmp::max(l, 1))
 }
 
-/// One NTS `handle_timer`, every cookie length 0..=1024 and every stash fill. The encoder call is
-/// replaced by the recorder (common.rs): what is checked here is the decision logic of
-/// `handle_timer` (send or reset, how many cookie-sized fields) and, with the per-field sizes
-/// established by `c14_ef_size`, that the request it assembles fits the buffer.
-fn c14_struct_body(version_sel: u8) {
+/// One NTS `handle_timer`, every cookie length 0..=1024 and every stash fill, with the request
+/// builder replaced by its recorder (common.rs): what is decided here is the decision logic of
+/// `handle_timer` itself (send or reset, how many cookie-sized fields it asks the builder for) and
+/// that the rest of `handle_timer` (encoding, pending identifier, timer) does not panic. With the
+/// builder's field list (c13_poll_message_*) and the per-field sizes (c14_ef_size) the request it
+/// asks for fits the buffer (asserted here on the recorded numbers).
+fn c14_timer_body(version_sel: u8) {
     stubs::symbolic_clock();
     sym_rng();
     let valid: usize = kani::any();
@@ -60,7 +61,9 @@ fn c14_struct_body(version_sel: u8) {
     oldest.truncate(l);
     let nts = sh::nts_data_with_stash(stash0(valid, oldest), c2s(), s2c());
     let version = version_from(version_sel, tries_left);
-    let v5 = version_sel != 0;
+    // a just-upgraded source that got no answer to its last two polls falls back to NTPv4 (C12)
+    let fell_back = version_sel == 2 && reach.trailing_zeros() >= 2;
+    let v5 = version_sel != 0 && !fell_back;
     let mut src = new_source(version, SourceConfig::default(), poll(desired), Some(nts));
     sh::set_reach(&mut src, reach);
     sh::set_tries(&mut src, tries);
@@ -68,24 +71,25 @@ fn c14_struct_body(version_sel: u8) {
     let (acts, n) = collect_actions(src.handle_timer());
 
     let sent = match &acts[0] {
-        Some(NtpSourceAction::Send(_)) => {
+        Some(NtpSourceAction::Send(p)) => {
             assert!(n == 2 && matches!(acts[1], Some(NtpSourceAction::SetTimer(_))), "Send is followed by SetTimer only");
+            assert!(p.len() <= 1024);
             assert!(valid >= 1 && l <= 724, "a request is only built when a cookie that leaves room exists");
             unsafe {
-                assert!(REC_CALLS == 1 && REC_N_COOKIE == 1 && REC_COOKIE_LEN == l && REC_PH_LEN_MISMATCH == 0, "one cookie, placeholders of the same length");
-                assert!(1 + REC_N_PH == asked(valid, l), "requested cookies = min(missing, floor(724 / max(L,1)))");
-                assert!(REC_N_UID == 1 && REC_UID_LEN == 32 && REC_N_OTHER == if v5 { 2 } else { 0 } && REC_N_ENC == 0 && REC_N_UNTRUSTED == 0, "fixed part of the request");
-                assert!(REC_HAS_KEY && REC_DESIRED_SIZE_NONE, "a cipher is supplied; no padding to a desired size");
-                // sizes per field: c14_ef_size (cookie-sized fields), constants for the rest
+                assert!(PM_CALLS == 1 && PM_V5 == v5 && PM_COOKIE_LEN == l, "one request, for the source's version, with the whole cookie");
+                assert!(PM_NEW_COOKIES as usize == asked(valid, l) && PM_NEW_COOKIES >= 1, "requested cookies = min(missing, floor(724 / max(L,1))), at least one");
+                // builder: identifier + one cookie-sized field per requested cookie (+ draft id, v5)
+                // (c13_poll_message_*); handle_timer adds the reference-id request (v5); the encoder
+                // adds the authenticator (40 bytes for an empty plaintext); sizes: c14_ef_size
                 let fixed = if v5 { 48 + 36 + 28 + 20 + 40 } else { 48 + 36 + 40 };
-                assert!(fixed + (1 + REC_N_PH) * ef_wire(l) <= 1024, "the assembled request fits the 1024-byte send buffer");
+                assert!(fixed + PM_NEW_COOKIES as usize * ef_wire(l) <= 1024, "the request that is asked for fits the 1024-byte send buffer");
             }
             true
         }
         Some(NtpSourceAction::Reset) => {
             assert!(n == 1, "Reset stands alone");
             assert!(valid == 0 || l > 724 || (reach == 0 && tries >= 3), "reset only without cookie, with an oversize cookie, or when unreachable");
-            assert!(unsafe { REC_CALLS == 0 }, "nothing is encoded on reset");
+            assert!(unsafe { PM_CALLS == 0 }, "nothing is built on reset");
             false
         }
         _ => {
@@ -98,24 +102,28 @@ fn c14_struct_body(version_sel: u8) {
     kani::cover!(sent && l == 0, "empty cookie");
     kani::cover!(!sent && l == 725 && valid == 8 && reach != 0, "reset: oversize cookie");
     kani::cover!(!sent && valid == 0, "reset: no cookies");
-    kani::cover!(sent && l == 256 && unsafe { REC_N_PH } == 1, "fit computed without u8 wrap-around");
+    kani::cover!(sent && l == 256 && valid == 1 && unsafe { PM_NEW_COOKIES } == 2, "fit computed without u8 wrap-around");
+    core::mem::forget(src);
+    core::mem::forget(acts);
 }
 
 nharness! {
-    #[kani::unwind(14)]
-    #[kani::stub(ntp_proto::NtpPacket::serialize, crate::common::serialize_recorder)]
-    fn c14_poll_struct_v4() {
-        c14_struct_body(0);
+    #[kani::unwind(6)]
+    #[kani::stub(ntp_proto::NtpPacket::nts_poll_message, crate::common::nts_poll_message_rec)]
+    #[kani::stub(ntp_proto::NtpPacket::nts_poll_message_v5, crate::common::nts_poll_message_v5_rec)]
+    fn c14_poll_timer_v4() {
+        c14_timer_body(0);
     }
 }
 
 nharness! {
-    #[kani::unwind(14)]
-    #[kani::stub(ntp_proto::NtpPacket::serialize, crate::common::serialize_recorder)]
-    fn c14_poll_struct_v5() {
+    #[kani::unwind(6)]
+    #[kani::stub(ntp_proto::NtpPacket::nts_poll_message, crate::common::nts_poll_message_rec)]
+    #[kani::stub(ntp_proto::NtpPacket::nts_poll_message_v5, crate::common::nts_poll_message_v5_rec)]
+    fn c14_poll_timer_v5() {
         let sel: u8 = kani::any();
         kani::assume(sel >= 1 && sel <= 3);
-        c14_struct_body(sel);
+        c14_timer_body(sel);
     }
 }
 
